@@ -309,6 +309,9 @@ impl<L> ClientBuilder<L> {
 		R: TransportReceiverT + Send,
 		L: tower::Layer<RpcService, Service = Svc> + Clone + Send + Sync + 'static,
 	{
+		#[cfg(jsonrpsee_verif)]
+		use crate::verif::rt as tokio;
+
 		let (to_back, from_front) = mpsc::channel(self.max_concurrent_requests);
 		let disconnect_reason = SharedDisconnectReason::default();
 		let max_buffer_capacity_per_subscription = self.max_buffer_capacity_per_subscription;
